@@ -563,12 +563,13 @@ def bool_facts(e, truth, prog):
             op = EQ_CALLS[orig_tail]
             op = op if truth else NEG[op]
             return [("cmp", op, e[2][0], e[2][1]), ("call", name, e[2], truth)]
-        if tail in ("is_some", "is_ok") and len(e[2]) == 1:
-            v = {"is_some": "Some", "is_ok": "Ok"}[tail]
-            return [("is" if truth else "isnot", v, e[2][0]), ("call", name, e[2], truth)]
-        if tail in ("is_none", "is_err") and len(e[2]) == 1:
-            v = {"is_none": "None", "is_err": "Err"}[tail]
-            return [("is" if truth else "isnot", v, e[2][0]), ("call", name, e[2], truth)]
+        if tail in ("is_some", "is_ok", "is_none", "is_err") and len(e[2]) == 1 and ("Option" in name or "Result" in name):
+            v = {"is_some": "Some", "is_ok": "Ok", "is_none": "None", "is_err": "Err"}[tail]
+            other = {"Some": "None", "None": "Some", "Ok": "Err", "Err": "Ok"}[v]
+            # two-variant enums: not one is the other
+            if truth:
+                return [("is", v, e[2][0]), ("isnot", other, e[2][0]), ("call", name, e[2], truth)]
+            return [("isnot", v, e[2][0]), ("is", other, e[2][0]), ("call", name, e[2], truth)]
         return [("call", name, e[2], truth)]
     if k == "const":
         return [("const", e[2], truth)]
@@ -666,7 +667,22 @@ class Conds:
                 if len(rem) == 1:
                     return [("is", rem[0], pe[1])] + [("isnot", n, pe[1]) for n in names]
                 return [("isnot", n, pe[1]) for n in names]
-            return [("is", self.prog.variant_by_discr(adt, lab), pe[1])]
+            v = self.prog.variant_by_discr(adt, lab)
+            out = [("is", v, pe[1])]
+            # the scrutinee is a merge of values, some of them literally built as another variant (`None` | f(x)): the
+            # one that is left must be the one that is `v`
+            sc = peel(pe[1])
+            if sc[0] == "phi":
+                def dead(x):
+                    px = peel(x)
+                    if px[0] == "agg" and px[2] != v:
+                        return True
+                    # the error exit of `?` builds the failure variant
+                    return px[0] == "call" and (px[4] or px[1]).endswith("FromResidual::from_residual") and v in ("Some", "Ok")
+                live = [x for x in sc[1] if not dead(x)]
+                if len(live) == 1 and len(sc[1]) > 1 and peel(live[0])[0] != "agg":
+                    out.append(("is", v, live[0]))
+            return out
         if ty == "bool":
             if lab == "otherwise":
                 truth = not (all_vals == [1])  # switchInt(x) -> [0: f, otherwise: t]
@@ -1246,6 +1262,25 @@ def possible_variants(fn, conds, scrut_pred, variants, block):
     return out
 
 
+def payload_of_merge(e):
+    """`(phi(Some{x} | None | None) as Some).0` is x - the alternatives built as another variant cannot be the one the
+    payload is read from.  Returns x, or e unchanged when the shape is different."""
+    pe = peel(e)
+    if pe[0] == "field" and pe[1][0] == "downcast":
+        m = peel(pe[1][1])
+        if m[0] == "phi":
+            vals = []
+            for a in m[1]:
+                a = peel(a)
+                if a[0] != "agg":
+                    return e
+                if a[2] == pe[1][2]:
+                    vals.extend(v for f, v in a[3] if f == pe[2])
+            if vals and all(strip_refs(v) == strip_refs(vals[0]) for v in vals):
+                return vals[0]
+    return e
+
+
 def is_err_value(e):
     """does a returned expression denote a failure: `Err(..)` / `None` built here, or the error exit of `?`
     (`FromResidual::from_residual(residual)`), or a Result adaptor over one of these"""
@@ -1580,6 +1615,8 @@ def reachable_tagged(fn, start, removed_edges=(), removed_blocks=(), max_states=
                     continue
                 rv = st["rv"]
                 new = None
+                if rv["k"] in ("ref", "rawptr") and rv.get("bk") not in ("shared", "fake") and isinstance(rv.get("place"), dict):
+                    tg.pop(rv["place"]["l"], None)          # a `&mut x` escapes: x may change behind our back
                 if rv["k"] == "agg" and rv.get("ak") == "adt" and rv.get("variant") is not None:
                     new = ("v", rv["variant"], rv.get("vi"))
                 elif rv["k"] == "use":
@@ -1621,18 +1658,68 @@ def reachable_tagged(fn, start, removed_edges=(), removed_blocks=(), max_states=
                     tg.pop(d["l"], None)
                 else:
                     tg[d["l"]] = new
-        elif t["k"] == "switch":
+        learn = None          # (local, {successor block: tag}) learnt by taking an edge of this switch
+        elif_done = False
+        if t["k"] == "switch":
             pl = op_place(t["discr"])
             if pl is not None and is_plain_local(pl) and pl["l"] in tg and tg[pl["l"]][0] == "d":
                 val = tg[pl["l"]][1]
                 hit = [tb for v, tb in t["targets"] if v == val]
                 succs = hit[:1] if hit else [t["otherwise"]]
+            elif pl is not None and is_plain_local(pl):
+                learn = _switch_teaches(fn, t, pl["l"])
         nt = frozenset(tg.items())
         for s_ in (succs if succs is not None else fn.succs(b)):
             if (b, s_) in removed_edges:
                 continue
-            work.append((s_, nt))
+            if learn is not None and s_ in learn[1] and learn[1][s_] is not None:
+                tg2 = dict(tg)
+                tg2[learn[0]] = learn[1][s_]
+                work.append((s_, frozenset(tg2.items())))
+            else:
+                work.append((s_, nt))
     return out
+
+
+_OPT_VI = {"std::option::Option": {0: "None", 1: "Some"}, "std::result::Result": {0: "Ok", 1: "Err"},
+           "std::ops::ControlFlow": {0: "Continue", 1: "Break"}}
+
+
+def _switch_teaches(fn, t, dl):
+    """what taking each edge of a switch says about the variant of an Option / Result *variable*: the switch is on
+    `discriminant(x)` or on the bool `x.is_some()` / `is_none()` / `is_ok()` / `is_err()` of a plain local x"""
+    sd = fn.single_def(dl)
+    if sd is None:
+        return None
+    if sd[2] == "assign":
+        rv = fn.blocks[sd[0]]["stmts"][sd[1]]["rv"]
+        if rv["k"] == "discr" and is_plain_local(rv["place"]) and rv.get("adt") in _OPT_VI:
+            names = _OPT_VI[rv["adt"]]
+            out = {}
+            seen = set()
+            for v, tb in t["targets"]:
+                out[tb] = ("v", names.get(v), v) if v in names else None
+                seen.add(v)
+            rest = [v for v in names if v not in seen]
+            out.setdefault(t["otherwise"], ("v", names[rest[0]], rest[0]) if len(rest) == 1 else None)
+            return rv["place"]["l"], out
+        return None
+    if sd[2] == "call":
+        ct = fn.blocks[sd[0]]["term"]
+        n = ct.get("callee") or ""
+        tail = n.rsplit("::", 1)[-1]
+        if tail in ("is_some", "is_none", "is_ok", "is_err") and ("Option" in n or "Result" in n) and ct["args"]:
+            x = root_local(fn, ct["args"][0])
+            if x is None:
+                return None
+            yes = {"is_some": ("v", "Some", 1), "is_none": ("v", "None", 0), "is_ok": ("v", "Ok", 0), "is_err": ("v", "Err", 1)}[tail]
+            no = {"is_some": ("v", "None", 0), "is_none": ("v", "Some", 1), "is_ok": ("v", "Err", 1), "is_err": ("v", "Ok", 0)}[tail]
+            out = {}
+            for v, tb in t["targets"]:
+                out[tb] = yes if v else no
+            out.setdefault(t["otherwise"], yes if [v for v, _ in t["targets"]] == [0] else (no if [v for v, _ in t["targets"]] == [1] else None))
+            return x, out
+    return None
 
 
 def reachable_feasible(fn, start, removed_edges=(), removed_blocks=(), max_states=200000):
